@@ -229,6 +229,35 @@ func runC13(c *Ctx) {
 				}
 			}
 		}
+		if !ok {
+			// the unrolled spelling: a single return of isValidPart(K0, n.Host) && … && isValidPart(K3, n.Tag)
+			// with the kind constants 0..3 paired with Host, Namespace, Model, Tag
+			if rs := core.SoleReturn(info, f.Body); rs != nil && len(rs.Results) == 1 {
+				pairs := map[string]int64{}
+				conj := true
+				var walk func(e ast.Expr)
+				walk = func(e ast.Expr) {
+					e = ast.Unparen(e)
+					if be, isB := e.(*ast.BinaryExpr); isB && be.Op == token.LAND {
+						walk(be.X)
+						walk(be.Y)
+						return
+					}
+					call, isC := e.(*ast.CallExpr)
+					if !isC || core.CalleeName(info, call) != modelNamePkg+".isValidPart" || len(call.Args) != 2 {
+						conj = false
+						return
+					}
+					if kv, isK := core.ConstInt(info, call.Args[0]); isK {
+						pairs[selName(call.Args[1])] = kv
+					} else {
+						conj = false
+					}
+				}
+				walk(rs.Results[0])
+				ok = conj && len(pairs) == 4 && pairs["Host"] == 0 && pairs["Namespace"] == 1 && pairs["Model"] == 2 && pairs["Tag"] == 3
+			}
+		}
 		// kind constants are iota in the same order: host=0, namespace=1, model=2, tag=3
 		okOrder := mk["host"] == 0 && mk["namespace"] == 1 && mk["model"] == 2 && mk["tag"] == 3
 		c.Check("C13-R1b", f.Key()+" validates all four parts with their kinds", c.Pos(f.Decl), ok && okOrder, "IsFullyQualified must run isValidPart(partKind(i), part) over {Host, Namespace, Model, Tag} and the kind constants must be 0..3 in that order")
@@ -316,7 +345,27 @@ func runC13(c *Ctx) {
 		for _, j := range joins {
 			jc := j.Node.(*ast.CallExpr)
 			last := jc.Args[len(jc.Args)-1]
-			okOperand := core.UsesObj(info, last, dp)
+			okOperand := false
+			for _, x := range expand(g, last, 2) {
+				if core.UsesObj(info, x, dp) {
+					okOperand = true
+				}
+			}
+			// a join of the models directory with constants only names the blobs directory itself
+			fixedOnly := true
+			for _, a := range jc.Args {
+				if _, isC := core.ConstString(info, a); isC {
+					continue
+				}
+				if call, isCall := ast.Unparen(a).(*ast.CallExpr); isCall && core.CalleeName(info, call) == "envconfig.Models" {
+					continue
+				}
+				fixedOnly = false
+			}
+			if fixedOnly {
+				c.OK("C13-R2", f.Key()+" join of fixed components at "+c.Pos(jc), c.Pos(jc), "models directory + constants")
+				continue
+			}
 			// every path from the entry to the join has seen the pattern match the parameter, or the
 			// parameter be empty (the blobs directory itself)
 			okGuard := false
@@ -352,7 +401,66 @@ func runC13(c *Ctx) {
 				ok = true
 			}
 		}
-		c.Check("C13-R2", f.Key()+" formats only the digest array", c.Pos(f.Decl), ok, "GetFile must build the file name as sha256-%x of the [32]byte sum")
+		if !ok {
+			// the other spelling: string constants free of separators concatenated with the hex form of the
+			// sum (hex.EncodeToString(d.sum[:]) directly or through a method of Digest that returns exactly that)
+			hexOfSum := func(e ast.Expr) bool {
+				call, isC := ast.Unparen(e).(*ast.CallExpr)
+				if !isC {
+					return false
+				}
+				isHex := func(c2 *ast.CallExpr, inf *types.Info) bool {
+					if core.CalleeName(inf, c2) != "encoding/hex.EncodeToString" || len(c2.Args) != 1 {
+						return false
+					}
+					sl, isSl := ast.Unparen(c2.Args[0]).(*ast.SliceExpr)
+					return isSl && selName(sl.X) == "sum"
+				}
+				if isHex(call, info) {
+					return true
+				}
+				fo, _ := core.Callee(info, call).(*types.Func)
+				if fo == nil || len(call.Args) != 0 {
+					return false
+				}
+				for _, hf := range c.P.FuncsOf(blobPkg) {
+					if hf.Obj == nil || hf.Obj.FullName() != fo.FullName() || len(hf.Body.List) != 1 {
+						continue
+					}
+					if r, isR := hf.Body.List[0].(*ast.ReturnStmt); isR && len(r.Results) == 1 {
+						if c2, isC2 := ast.Unparen(r.Results[0]).(*ast.CallExpr); isC2 && isHex(c2, hf.Info()) {
+							return true
+						}
+					}
+				}
+				return false
+			}
+			var parts func(e ast.Expr) (okAll bool, hexes int)
+			parts = func(e ast.Expr) (bool, int) {
+				e = ast.Unparen(e)
+				if be, isB := e.(*ast.BinaryExpr); isB && be.Op == token.ADD {
+					a, x := parts(be.X)
+					b, y := parts(be.Y)
+					return a && b, x + y
+				}
+				if sv, isS := core.ConstString(info, e); isS {
+					return !strings.ContainsAny(sv, "/\\.") , 0
+				}
+				if hexOfSum(e) {
+					return true, 1
+				}
+				return false, 0
+			}
+			ast.Inspect(f.Body, func(n ast.Node) bool {
+				if as, isA := n.(*ast.AssignStmt); isA && len(as.Rhs) == 1 {
+					if okAll, hexes := parts(as.Rhs[0]); okAll && hexes == 1 {
+						ok = true
+					}
+				}
+				return true
+			})
+		}
+		c.Check("C13-R2", f.Key()+" formats only the digest array", c.Pos(f.Decl), ok, "GetFile must build the file name as sha256-%x of the [32]byte sum (or separator-free constants + hex.EncodeToString of the sum)")
 	}
 
 	// ------------------------------------------------------------------ R3 / R4
@@ -681,11 +789,37 @@ func joinInventory(c *Ctx) {
 									}
 								}
 							}
-							for _, as := range g.AssignsTo(p.Root) {
-								if a, isA := as.Node.(*ast.AssignStmt); isA && len(a.Rhs) == 1 && len(core.CallsTo(info, a.Rhs[0], false, "path/filepath.Join")) == 1 {
-									fromJoin = true // the audited "manifests"+np join itself
+							// every assignment to the local is an audited value: the "manifests"+np join itself,
+							// a local holding it, or the link of the current iteration
+							asg := g.AssignsTo(p.Root)
+							allAudited := len(asg) > 0
+							for _, as := range asg {
+								a, isA := as.Node.(*ast.AssignStmt)
+								if !isA || len(a.Rhs) != 1 {
+									allAudited = false
+									continue
+								}
+								okA := len(core.CallsTo(info, a.Rhs[0], false, "path/filepath.Join")) == 1
+								if id, isId := ast.Unparen(a.Rhs[0]).(*ast.Ident); isId {
+									o := info.Uses[id]
+									for _, as2 := range g.AssignsTo(o) {
+										if a2, isA2 := as2.Node.(*ast.AssignStmt); isA2 && len(a2.Rhs) == 1 && len(core.CallsTo(info, a2.Rhs[0], false, "path/filepath.Join")) == 1 {
+											okA = true
+										}
+									}
+									for _, rl := range rangeLoops(fn) {
+										if lc, isC := ast.Unparen(rl.Stmt.X).(*ast.CallExpr); isC && core.CalleeName(info, lc) == blobPkg+".DiskCache.links" {
+											if kid, isK := rl.Stmt.Key.(*ast.Ident); isK && info.Defs[kid] == o {
+												okA = true
+											}
+										}
+									}
+								}
+								if !okA {
+									allAudited = false
 								}
 							}
+							fromJoin = allAudited
 						}
 						switch {
 						case p.Last() != nil && p.Last().Name() == "dir":
@@ -699,7 +833,7 @@ func joinInventory(c *Ctx) {
 			}
 		}
 	}
-	c.Expect("C13-R3", "path join sites under the model store", n, 20)
+	c.Expect("C13-R3", "path join sites under the model store", n, 15)
 	// the two name→path functions must return the audited four-part join and nothing else
 	for _, x := range []struct{ rel, fn string }{{blobPkg, "nameToPath"}, {modelNamePkg, "Name.Filepath"}} {
 		f := c.Fn("C13-R4", x.rel, x.fn)
